@@ -240,8 +240,40 @@ def nontrivial(c: Case) -> bool:
     return c.obs is not None and c.obs[0] == "OValid" and c.v[0] not in ("Scalar", "AlwaysValid")
 
 
+def instance_fields_kept() -> Optional[dict]:
+    """An instance of the record class is accepted as it is: every field keeps its value *and its type*, also when the
+    value equals the field's declared default (False / 0.0 against a default of 0, 1.0 against 1)."""
+    import dataclasses as _dc
+    from typing import NamedTuple, Union
+    from koda_validate import DataclassValidator, NamedTupleValidator, Valid
+    NT = NamedTuple("NT", [("name", str), ("a", Union[int, bool, float]), ("b", Union[int, float])])
+    NT.__new__.__defaults__ = (0, 1)
+    NT._field_defaults = {"a": 0, "b": 1}
+    DC = _dc.make_dataclass("DC", [("name", str), ("a", Union[int, bool, float], _dc.field(default=0)), ("b", Union[int, float], _dc.field(default=1))])
+    for cls, V in ((NT, NamedTupleValidator), (DC, DataclassValidator)):
+        v = V(cls)
+        for a, b in ((False, 1.0), (0.0, 1), (0, True) if False else (0, 1), (True, 2.5), (False, 1)):
+            inst = cls("n", a, b)
+            for mode in ("sync", "async"):
+                r = v(inst) if mode == "sync" else drive(v.validate_async(inst))
+                ok = type(r) is Valid and type(r.val) is cls and (r.val.a, r.val.b) == (a, b) and type(r.val.a) is type(a) and type(r.val.b) is type(b)
+                if not ok:
+                    return {"signature": "C17:instance-fields", "what": f"{V.__name__} ({mode}) given the instance {inst!r} returned {r!r}: the fields do not keep their values and types"}
+                r2 = v(r.val) if mode == "sync" else drive(v.validate_async(r.val))
+                if type(r2) is not Valid or (r2.val.a, r2.val.b) != (a, b) or type(r2.val.a) is not type(a) or type(r2.val.b) is not type(b):
+                    return {"signature": "C17:instance-fields", "what": f"{V.__name__} ({mode}): its payload {r.val!r} comes back as {r2!r} when validated again"}
+    return None
+
+
 def run(tier: str, rng: random.Random, proof_ok: bool) -> dict:
     rep = run_families("C17", cases(tier, rng), rng, oracle, nontrivial)
+    from .C04 import object_stage_payload
+    ifk = instance_fields_kept()
+    if ifk:
+        rep["violations"].append({"kind": "oracle", **ifk, "replay_case": {"instance_fields_kept": True}})
+    osp = object_stage_payload("C17")      # record validators with whole-object checks accept their own payloads
+    if osp:
+        rep["violations"].append({"kind": "oracle", **osp, "replay_case": {"object_stage_payload": True}})
     # a case on which model and implementation already disagree about the *first* run is a broken
     # correspondence in its own right; the recorded finding (signature container-predicate-on-payload)
     # explains second runs only and must not absorb it
@@ -268,4 +300,15 @@ def run(tier: str, rng: random.Random, proof_ok: bool) -> dict:
 
 
 def replay(path: str) -> int:
+    import json
+    rc = json.load(open(path)).get("replay_case")
+    if isinstance(rc, dict) and rc.get("instance_fields_kept"):
+        r = instance_fields_kept()
+        print("property violated: " + r["what"] if r else "property holds: instances keep their field values and types")
+        return 1 if r else 0
+    if isinstance(rc, dict) and rc.get("object_stage_payload"):
+        from .C04 import object_stage_payload
+        r = object_stage_payload("C17")
+        print("property violated: " + r["what"] if r else "property holds: record validators with whole-object checks accept their own payloads")
+        return 1 if r else 0
     return generic_replay(path, oracle)
